@@ -768,7 +768,7 @@ int sim_main( int argc, char** argv, const Harness& h )
     };
 
     unsigned alive = o.workers;
-    while ( alive > 0 && !fatal && found.size() < 3 )
+    while ( alive > 0 && !fatal && found.empty() )
     {
         std::vector< pollfd > pfds;
         std::vector< unsigned > who;
